@@ -233,18 +233,26 @@ def _clamp(it, v, total):
     return v
 
 
-def _needle_ok(needle):
+def _needle_ok(needle, ps=None):
     if not isinstance(needle, str):
         raise Unsupported(f"needle {needle!r}")
     if any(ch in DIGITS for ch in needle):
-        raise Unsupported("search for a digit in a segment string")
+        # a needle with digits is decidable structurally iff no occurrence can reach into a hole: it does not start
+        # with a digit, and no literal piece in front of a hole ends with a proper prefix of the needle that a digit continues
+        if ps is None or needle[0] in DIGITS:
+            raise Unsupported("search for a digit in a segment string")
+        for k, p in enumerate(ps[:-1]):
+            if isinstance(p, str) and not isinstance(ps[k + 1], str):
+                for j in range(1, len(needle)):
+                    if needle[j] in DIGITS and p.endswith(needle[:j]):
+                        raise Unsupported("needle could match into the digits of a hole")
 
 
 def find(it, s, needle, *a):
     if a:
         raise Unsupported("find with start/end")
-    _needle_ok(needle)
     ps = normalise(it, s)
+    _needle_ok(needle, ps)
     cums = _cums(ps)
     for k, p in enumerate(ps):
         if isinstance(p, str):
@@ -257,16 +265,16 @@ def find(it, s, needle, *a):
 def contains(it, s, needle):
     if isinstance(needle, DigitChar):
         raise Unsupported("digit in segment string")
-    _needle_ok(needle)
+    ps = normalise(it, s)
+    _needle_ok(needle, ps)
     if needle == "":
         return True
-    ps = normalise(it, s)
     return any(isinstance(p, str) and needle in p for p in ps)
 
 
 def count(it, s, needle):
-    _needle_ok(needle)
     ps = normalise(it, s)
+    _needle_ok(needle, ps)
     return sum(p.count(needle) for p in ps if isinstance(p, str))
 
 
@@ -371,9 +379,9 @@ def upper(it, s):
 def replace(it, s, old, new, *a):
     if a:
         raise Unsupported("replace with count")
-    _needle_ok(old)
     M = _M()
     ps = normalise(it, s)
+    _needle_ok(old, ps)
     out = []
     for p in ps:
         if isinstance(p, str):
